@@ -297,6 +297,21 @@ BcastReturn ==
                  knows, calls, ended, wtask, spur, badAccess, lateCall,
                  wrongIdx, maxN>>
 
+\* The broadcast unwinds instead of returning: the panic payload of the
+\* caller's own call is dropped by the pool after the wait, and its
+\* destructor may panic.  Everything required of a return is required of
+\* this exit as well.
+BcastUnwind ==
+  /\ pc[0] = "ret"
+  /\ ended[0] = "panic"
+  /\ retEarly' = (retEarly \/ \E i \in 0..curN : ended[i] = "none")
+  /\ retNoHB' = (retNoHB \/ \E i \in 0..curN : GhostEv(bidx, i) \notin knows[0])
+  /\ Goto(0, "idle")
+  /\ UNCHANGED <<bidx, curN, spawned, sendi, lockHeld, lockK, chan, chanK,
+                 senderLive, rc, rcRel, token, tokenK, handleLive, atomLive,
+                 knows, calls, ended, wtask, spur, badAccess, lateCall,
+                 wrongIdx, maxN>>
+
 \* Harness marker in front of dropping the pool.
 PoolDrop ==
   /\ pc[0] = "idle"
@@ -407,7 +422,7 @@ CallerCoreStep(acqOrd) ==
   \/ \E p \in BOOLEAN : TaskEnd(0, 0, p)
   \/ LoadCount(acqOrd)
   \/ \E s \in BOOLEAN : Park(s)
-  \/ HandleDrop0 \/ AtomDrop \/ BcastReturn \/ SenderDrop
+  \/ HandleDrop0 \/ AtomDrop \/ BcastReturn \/ BcastUnwind \/ SenderDrop
   \/ ThreadExit(0)
 
 AllDone ==
